@@ -103,11 +103,19 @@ impl LT {
         LT::new(Dt::F32, &[v.len()], v.to_vec())
     }
     /// Random values in `[lo, hi]`; with probability 1/3 constant along a random non-empty
-    /// subset of the axes.
+    /// subset of the axes. In the inexact float flavour (`set_inexact_floats`) f32 tensors
+    /// draw from a palette of values whose sums/products/reciprocals are not exactly
+    /// representable (the sign constraint `lo >= 0` is kept).
     pub fn rand(rng: &mut SplitMix64, dt: Dt, shape: &[usize], lo: i64, hi: i64) -> LT {
+        if dt == Dt::F32 && inexact_floats() {
+            return Self::rand_with(rng, dt, shape, |r| inexact_value(r, lo >= 0));
+        }
         Self::rand_with(rng, dt, shape, |r| r.range(lo, hi) as f64)
     }
     pub fn rand_nonzero(rng: &mut SplitMix64, dt: Dt, shape: &[usize], lo: i64, hi: i64) -> LT {
+        if dt == Dt::F32 && inexact_floats() {
+            return Self::rand_with(rng, dt, shape, |r| inexact_value(r, lo >= 0));
+        }
         Self::rand_with(rng, dt, shape, |r| loop {
             let v = r.range(lo, hi);
             if v != 0 {
@@ -189,6 +197,29 @@ impl LT {
     }
 }
 
+static INEXACT: std::sync::atomic::AtomicBool = std::sync::atomic::AtomicBool::new(false);
+
+/// Select the inexact float flavour for subsequently generated f32 tensors.
+pub fn set_inexact_floats(on: bool) {
+    INEXACT.store(on, std::sync::atomic::Ordering::SeqCst);
+}
+pub fn inexact_floats() -> bool {
+    INEXACT.load(std::sync::atomic::Ordering::SeqCst)
+}
+
+/// Non-zero f32 values with inexact reciprocals / products: thirds, tenths, 7, 10, pi, e, large,
+/// small and subnormal magnitudes. One draw of the generator per value.
+fn inexact_value(rng: &mut SplitMix64, nonneg: bool) -> f64 {
+    const PALETTE: [f64; 20] = [
+        1.0 / 3.0, 0.1, 3.0, 7.0, 10.0, 3.14159265, 2.7182817, 0.7, 1.5, 5.0, 6.0, 0.3, 1.0e-3, 12345.678, 3.0e18,
+        1.0e-40, 7.0e-39, 2.5, 9.0, 1.1,
+    ];
+    let x = rng.next();
+    let v = PALETTE[(x % 20) as usize];
+    let v = (v as f32) as f64; // the value that is actually stored
+    if !nonneg && (x >> 32) & 1 == 1 { -v } else { v }
+}
+
 pub fn inverse_perm(p: &[usize]) -> Vec<usize> {
     let mut q = vec![0usize; p.len()];
     for (i, &d) in p.iter().enumerate() {
@@ -238,6 +269,10 @@ pub enum RepKind {
     /// contiguous up to size-1 dims: only size-1 axes are moved / carry non-canonical strides,
     /// so `data()` is still `Some` although the strides are not row-major
     UnitPerm,
+    /// permute composed with slicing: a cropped / stepped window of a larger buffer that holds a
+    /// PERMUTATION of the tensor (e.g. an NHWC image cropped along W, viewed as NCHW), optionally
+    /// with constant axes collapsed and broadcast back
+    Composed,
 }
 impl RepKind {
     pub fn name(self) -> &'static str {
@@ -248,6 +283,7 @@ impl RepKind {
             RepKind::Offset => "offset",
             RepKind::Broadcast => "broadcast",
             RepKind::UnitPerm => "unitperm",
+            RepKind::Composed => "composed",
         }
     }
 }
@@ -364,6 +400,76 @@ impl Rep {
                     fill!(Int8Tensor);
                     fill!(UInt8Tensor);
                     Rep { kind, backing, slice, perm: None, bshape: None, custom: None, applied: true }
+                }
+            }
+            RepKind::Composed => {
+                if rank < 2 {
+                    contig(false)
+                } else {
+                    // optionally collapse constant axes first (broadcast o permute o slice)
+                    let collapse = !lt.const_axes.is_empty()
+                        && lt.const_axes.iter().any(|&d| lt.shape[d] > 1)
+                        && rng.chance(1, 2);
+                    let base = if collapse { collapse_const_axes(lt) } else { lt.clone() };
+                    // channels-last is the permutation that occurs in practice for 4-D tensors
+                    let mut p = if rank == 4 && rng.chance(3, 4) { vec![0, 2, 3, 1] } else { rng.perm(rank) };
+                    if p.iter().enumerate().all(|(i, &d)| i == d) {
+                        p.swap(0, rank - 1);
+                    }
+                    let b = base.permuted(&p);
+                    // window of a larger buffer: per axis untouched / cropped (step 1) / stepped
+                    // (the innermost storage axis is usually left dense, as in a cropped image)
+                    let forced =
+                        if rng.chance(3, 4) { rng.below(rank as u64 - 1) as usize } else { rng.below(rank as u64) as usize };
+                    let mut slice = vec![];
+                    let mut bshape = vec![];
+                    for d in 0..rank {
+                        let mode = if d == forced {
+                            1 + rng.below(2)
+                        } else if d == rank - 1 && rng.chance(1, 2) {
+                            0
+                        } else {
+                            rng.below(4)
+                        };
+                        let (step, off, pad) = match mode {
+                            1 => (1, rng.upto(2), 1 + rng.upto(1)),
+                            2 => (2 + rng.upto(1), rng.upto(1), rng.upto(1)),
+                            _ => (1, 0, 0),
+                        };
+                        let sz = b.shape[d];
+                        let end = if sz == 0 { off } else { off + (sz - 1) * step + 1 };
+                        slice.push((off, end, step));
+                        bshape.push(end + pad);
+                    }
+                    let junk = vec![113.0; numel(&bshape)];
+                    let mut backing = make_value(b.dt, &bshape, &junk, 0);
+                    let items: Vec<SliceItem> = slice
+                        .iter()
+                        .map(|&(s, e, st)| {
+                            SliceItem::Range(SliceRange::new(s as isize, Some(e as isize), st as isize))
+                        })
+                        .collect();
+                    let src = b.to_value();
+                    macro_rules! fill {
+                        ($variant:ident) => {
+                            if let (Value::$variant(bk), Value::$variant(s)) = (&mut backing, &src) {
+                                bk.slice_mut(items.as_slice()).copy_from(&s.view());
+                            }
+                        };
+                    }
+                    fill!(FloatTensor);
+                    fill!(Int32Tensor);
+                    fill!(Int8Tensor);
+                    fill!(UInt8Tensor);
+                    Rep {
+                        kind,
+                        backing,
+                        slice,
+                        perm: Some(inverse_perm(&p)),
+                        bshape: if collapse { Some(lt.shape.clone()) } else { None },
+                        custom: None,
+                        applied: true,
+                    }
                 }
             }
             RepKind::UnitPerm => {
@@ -500,6 +606,29 @@ impl Rep {
             _ => true,
         }
     }
+}
+
+/// The tensor with its constant axes collapsed to size 1 (zero-sized axes kept).
+fn collapse_const_axes(lt: &LT) -> LT {
+    let rank = lt.shape.len();
+    let base_shape: Vec<usize> =
+        lt.shape.iter().enumerate().map(|(d, &s)| if lt.const_axes.contains(&d) && s > 0 { 1 } else { s }).collect();
+    let st = contiguous_strides(&lt.shape);
+    let n = numel(&base_shape);
+    let mut vals = Vec::with_capacity(n);
+    let mut idx = vec![0usize; rank];
+    for _ in 0..n {
+        let off: usize = (0..rank).map(|d| idx[d] * st[d]).sum();
+        vals.push(lt.vals[off]);
+        for d in (0..rank).rev() {
+            idx[d] += 1;
+            if idx[d] < base_shape[d] {
+                break;
+            }
+            idx[d] = 0;
+        }
+    }
+    LT { dt: lt.dt, shape: base_shape, vals, const_axes: vec![] }
 }
 
 // ------------------------------------------------------------------ owned representations
@@ -814,8 +943,14 @@ pub fn hold(inp: &In, kind: RepKind, rng: &mut SplitMix64) -> (Holder, bool) {
     }
 }
 
-pub const ALT_KINDS: [RepKind; 5] =
-    [RepKind::Permuted, RepKind::Stepped, RepKind::Offset, RepKind::Broadcast, RepKind::UnitPerm];
+pub const ALT_KINDS: [RepKind; 6] = [
+    RepKind::Permuted,
+    RepKind::Stepped,
+    RepKind::Offset,
+    RepKind::Broadcast,
+    RepKind::UnitPerm,
+    RepKind::Composed,
+];
 
 pub fn owned_input(inp: &In, kind: OwnedKind, rng: &mut SplitMix64) -> (Value, bool) {
     match inp {
